@@ -114,4 +114,8 @@ def _overflow(ctx, b, fn):
                         if a.kind == "param" and b.locals[a.what][0] not in ("u32", "&[u8]"):
                             good = False
                 oks.append(good)
-            ctx.ob(f"{fn}|add-cannot-overflow", all(oks), "usize addition of u32-derived / slice-length operands", b.loc(i))
+            m = re.search(r"<([iu])(\d+|size)>", t["ak"])
+            wide = bool(m) and (m.group(2) == "size" or int(m.group(2)) >= 64)
+            ctx.ob(f"{fn}|add-cannot-overflow", all(oks) and wide,
+                   f"{t['ak']}: addition of u32-derived / slice-length operands " + ("performed in a 64-bit type (cannot overflow)" if wide else
+                   "performed in a type no wider than its u32 operands: ptr + len can overflow before the bounds test (panic in checked builds, wrap-around past the test otherwise)"), b.loc(i))
